@@ -70,6 +70,7 @@ type LRec struct {
 	Dup   int  // 1+index of a field whose element is emitted twice (xml/json only); 0 = none
 	Short int  // number of trailing fields left out of the row (csv / csv2 single-row records only)
 	Bad   bool // the row is malformed for the old csv reader (bare quote in an unquoted field: a continuable reader error)
+	NS    int  // xml only: the record has a child element that declares a namespace of its own (1: as the default namespace, 2: under a further prefix); 0 = none
 }
 
 // Shape is the logical shape shared by the records of a world.
@@ -81,6 +82,7 @@ type Shape struct {
 	Charset       Charset
 	MaxVal        int
 	SkipValue     string // a record whose field 0 has this value is rejected by the target filter ("" = no filter)
+	BareFilter    int    // line-based formats and edi: the filter is a bare boolean expression (1: a comparison, 2: an 'and' of two)
 	NumericFilter bool   // the target filter is a numeric comparison on field 1 (no record is rejected by value)
 }
 
@@ -94,6 +96,10 @@ func DrawShape(t *tape.Tape, cs Charset, allowItems bool) Shape {
 	}
 	if t.Chance("shape.filter", 1, 3) {
 		s.SkipValue = "SKIP"
+		if t.Chance("shape.filter.bare", 1, 4) {
+			// the filter written as a bare condition ("F0 != 'SKIP'") instead of a predicate (".[F0 != 'SKIP']")
+			s.BareFilter = 1 + t.Intn("shape.filter.bare.kind", 2)
+		}
 	}
 	return s
 }
@@ -205,12 +211,20 @@ var jsScripts = []struct {
 	{"a + ' ' + b", 2},
 	{"a + '  ' + b", 2},
 	{"a + '-' +  b", 2},
+	// top-level declarations: bindings that live in the runtime's global scope rather than in the call
+	{"const t = a + '!'; t", 1},
+	{"let u = a.length; u * 2", 1},
+	{"var w; if (a.length > 3) { w = a } typeof w + '/' + a.length", 1},
+	{"function f(x) { return '<' + x + '>' } f(a)", 1},
 }
 
 // leaf generates a declaration that yields a scalar, evaluated at a node whose field xpaths are fs.
 func (g *declGen) leaf(fs []string, intField string) D {
 	pick := func() string { return fs[g.t.Intn("decl.field", len(fs))] }
-	w := []int{8, 3, 2, 2, 3, 2, 2, 1, 3, 2, 2, 0, 2}
+	w := []int{8, 3, 2, 2, 3, 2, 2, 1, 3, 2, 2, 0, 2, 0, 1}
+	if !g.o.NoJS && !g.o.OwnDataOnly && g.t.Chance("decl.cyclic", 1, 12) {
+		w[13] = 3
+	}
 	if g.o.Probe {
 		w[11] = 6
 	}
@@ -272,6 +286,24 @@ func (g *declGen) leaf(fs []string, intField string) D {
 		g.usesJS = true
 		src := g.t.Pick("decl.jsctx", "Object.keys(JSON.parse(_node)).length", "JSON.stringify(JSON.parse(_node))", "_node.length")
 		return cf("javascript_with_context", D{"const": src})
+	case 13:
+		// a script result that contains itself reaches a place that cannot use it (and has to say so):
+		// a string argument, the name of a javascript argument, the value of an xpath_dynamic
+		g.usesJS = true
+		cyc := cf("javascript", D{"const": "(function(){ var o = {k: a}; o.self = o; return o })()"}, D{"const": "a"}, D{"xpath": pick()})
+		switch g.t.Intn("decl.cyclic.where", 3) {
+		case 0:
+			return cf("upper", cyc)
+		case 1:
+			return cf("javascript", D{"const": "1 + 1"}, cyc, D{"const": "v"})
+		default:
+			return D{"xpath_dynamic": cyc}
+		}
+	case 14:
+		// an xpath that computes a boolean rather than selecting nodes: a condition on the cursor node
+		f := pick()
+		x := g.t.Pick("decl.boolxpath", f+" != ''", f+" = ''", f+" != '' or "+f+" = ''", "1 < 2", "string-length("+f+") > 0 and "+f+" != 'Q'")
+		return cf("coalesce", D{"xpath": x, "custom_func": D{"name": "concat", "args": []interface{}{D{"const": "yes"}}}}, D{"const": "no"})
 	case 11:
 		return cf("verif_probe", D{"xpath": pick()})
 	case 12:
@@ -325,6 +357,34 @@ func (g *declGen) object(fs []string, intField string, item *ItemModel) D {
 		obj["kc_arr"] = D{"array": []interface{}{deepCopy(d)}}
 		cur := g.t.Pick("decl.collide.cursor", ".", fs[0], fs[len(fs)-1])
 		obj["kc_obj"] = D{"xpath": cur, "object": D{"c": deepCopy(d)}}
+	}
+	if g.o.Collide && !g.o.NoJS && g.depth == 1 && g.t.Chance("decl.collide.argedit", 1, 3) {
+		// one template evaluated twice on the same node: once as output, once as the argument of a
+		// script that edits its argument in place (sort/reverse/assignment): the edit must stay in the call
+		g.usesJS = true
+		tn := "tplarg"
+		src := "s.reverse(); s.length"
+		if g.t.Bool("decl.collide.argedit.obj") {
+			g.templates[tn] = D{"object": D{"v": D{"xpath": fs[0]}, "c": D{"const": "tc"}}}
+			src = "s.c = 'edited'; s.extra = 1; s.v"
+		} else {
+			g.templates[tn] = D{"array": []interface{}{D{"xpath": fs[0]}, D{"const": "z9"}, D{"xpath": fs[len(fs)-1]}}}
+		}
+		js := cf("javascript", D{"const": src}, D{"const": "s"}, D{"template": tn})
+		js["keep_empty_or_null"] = true
+		if g.t.Bool("decl.collide.argedit.order") {
+			obj["ka_out"], obj["kb_js"] = D{"template": tn}, js
+		} else {
+			obj["kb_out"], obj["ka_js"] = D{"template": tn}, js
+		}
+	}
+	if g.o.Collide && g.t.Chance("decl.collide.empty", 1, 4) {
+		// an empty object / array declaration next to the field declaration it differs from only by that
+		x := fs[g.t.Intn("decl.field", len(fs))]
+		obj["ke_field"] = D{"xpath": x, "keep_empty_or_null": true}
+		obj["ke_object"] = D{"xpath": x, "object": D{}, "keep_empty_or_null": true}
+		obj["ke_text"] = D{"keep_empty_or_null": true}
+		obj["ke_array"] = D{"array": []interface{}{}, "keep_empty_or_null": true}
 	}
 	n := 2 + g.t.Intn("decl.n", 5)
 	for i := 0; i < n; i++ {
